@@ -2,6 +2,8 @@ CONSTANTS Ws = {3}  Hs = {3}  SBs = {2}  TABs = {2}  MaxOps = 7
   Kind = "rec"  Bug = ""  Props = {"C18"}  EmitMode = "sample"  EmitMod = 16
 CONSTANT Bytes <- MCBytes
 CONSTANT CurVals <- MCCurVals
+CONSTANT Chunks <- MCNoChunks
+CONSTANT Cols <- MCCols1
 INIT Init
 NEXT Next
 INVARIANT NoMismatch
